@@ -1,9 +1,454 @@
 package c11
 
-import "verif/internal/hx"
+import (
+	"bytes"
+	"encoding/base64"
+	"encoding/hex"
+	"errors"
+	"fmt"
+	"strings"
+	"testing"
+	"unicode/utf8"
 
-// SessCase placeholder (replaced below).
-type SessCase struct{}
+	"pgregory.net/rapid"
 
-// CheckSession placeholder.
-func CheckSession(c SessCase) (hx.Vs, bool, []string) { return nil, false, nil }
+	"verif/internal/fix"
+	"verif/internal/gen"
+	"verif/internal/hx"
+	"verif/internal/pgprog"
+	"verif/internal/pgsess"
+)
+
+// SessCase: one table with masked columns; the owner inserts rows through acra's PostgreSQL proxy, then every
+// kind of reader selects them in a session of its own over the same database.
+type SessCase struct {
+	Cols []pgprog.ColSpec `json:"cols"` // masked columns (mask_len is resolved from Wins at run time)
+	Wins []Win            `json:"wins"` // window of column i, relative to the length of its value in row 0
+	Rows [][][]Part       `json:"rows"` // Rows[r][c]: parts of the value; empty = NULL
+	// write options (see pgprog.Step)
+	Write pgprog.Step `json:"write"`
+	// read options
+	ReadExt   bool  `json:"read_ext,omitempty"`
+	ResultFmt int16 `json:"result_fmt,omitempty"`
+	Star      bool  `json:"star,omitempty"`
+}
+
+var sessPatterns = []string{"*", "xxxx", "MASK", "x y", "%%%", "%", `"`, `""""""""`, `%%%"""`, "0123456789012345678901234567890123456789", "маска"}
+
+func genTextPart(t *rapid.T, label string) Part {
+	switch rapid.IntRange(0, 7).Draw(t, label+".what") {
+	case 0, 1, 2, 3:
+		m := gen.Marker(t, label)
+		return Part{Raw: m[:20]} // "MRK" + 16 hex digits + "#"
+	case 4:
+		return Part{Pattern: true}
+	case 5:
+		sym := rapid.SampledFrom([]byte{'"', '%'}).Draw(t, label+".sym")
+		return Part{Raw: bytes.Repeat([]byte{sym}, rapid.IntRange(1, 9).Draw(t, label+".nsym"))}
+	case 6:
+		return Part{Raw: gen.Hex(rapid.SampledFrom([]string{"ünï", "日本語テキスト", "'quote", `back\slash`, "\n", "$1", ";--", " ", "ж"}).Draw(t, label+".s"))}
+	}
+	return Part{Raw: gen.Hex(rapid.StringMatching(`[a-zA-Z0-9 ]{1,40}`).Draw(t, label+".ascii"))}
+}
+
+func genSessCase(t *rapid.T) SessCase {
+	var c SessCase
+	n := rapid.IntRange(1, 3).Draw(t, "ncols")
+	for i := 0; i < n; i++ {
+		name := fmt.Sprintf("m%d", i)
+		col := pgprog.GenCol(t, name, []string{pgprog.KMask}, "alice")
+		col.MaskPat = rapid.SampledFrom(sessPatterns).Draw(t, name+".pattern")
+		col.MaskSide = rapid.SampledFrom([]string{"left", "right"}).Draw(t, name+".side")
+		col.MaskLen = 0
+		c.Cols = append(c.Cols, col)
+		c.Wins = append(c.Wins, genWinL(t, name))
+	}
+	nrows := rapid.IntRange(1, 3).Draw(t, "nrows")
+	for r := 0; r < nrows; r++ {
+		var row [][]Part
+		for i, col := range c.Cols {
+			label := fmt.Sprintf("r%dc%d", r, i)
+			if r > 0 && rapid.IntRange(0, 9).Draw(t, label+".null") == 0 {
+				row = append(row, nil)
+				continue
+			}
+			np := rapid.SampledFrom([]int{1, 1, 2, 2, 3}).Draw(t, label+".nparts")
+			var ps []Part
+			for k := 0; k < np; k++ {
+				if col.DataType == "str" {
+					ps = append(ps, genTextPart(t, fmt.Sprintf("%s.p%d", label, k)))
+				} else {
+					ps = append(ps, genPart(t, fmt.Sprintf("%s.p%d", label, k)))
+				}
+			}
+			row = append(row, ps)
+		}
+		c.Rows = append(c.Rows, row)
+	}
+	w := pgprog.Step{Op: "insert", Ext: rapid.Bool().Draw(t, "w.ext"), Spelling: rapid.IntRange(0, 3).Draw(t, "w.spelling"), Cast: rapid.IntRange(0, 4).Draw(t, "w.cast") == 0}
+	if w.Ext {
+		w.ParamFmt = int16(rapid.IntRange(0, 1).Draw(t, "w.pfmt"))
+		w.Declare = rapid.Bool().Draw(t, "w.declare")
+		w.Describe = rapid.SampledFrom([]string{"S", "P"}).Draw(t, "w.describe")
+		w.MixedFmt = rapid.IntRange(0, 3).Draw(t, "w.mixed") == 0
+		if rapid.IntRange(0, 2).Draw(t, "w.litmix") == 0 {
+			w.LitEvery = rapid.IntRange(2, 3).Draw(t, "w.litevery")
+		}
+	}
+	c.Write = w
+	c.ReadExt = rapid.Bool().Draw(t, "r.ext")
+	if c.ReadExt {
+		c.ResultFmt = int16(rapid.IntRange(0, 1).Draw(t, "r.rfmt"))
+	}
+	c.Star = rapid.Bool().Draw(t, "r.star")
+	return c
+}
+
+func genWinL(t *rapid.T, label string) Win {
+	w := Win{Rel: rapid.SampledFrom([]string{"zero", "inside", "inside", "inside", "inside", "len-1", "len", "len+1", "abs"}).Draw(t, label+".win.rel")}
+	switch w.Rel {
+	case "inside":
+		w.K = rapid.OneOf(rapid.IntRange(0, 12), rapid.IntRange(0, 1<<16)).Draw(t, label+".win.k")
+	case "abs":
+		w.K = rapid.OneOf(rapid.IntRange(0, 40), rapid.IntRange(0, 5000)).Draw(t, label+".win.abs")
+	}
+	return w
+}
+
+func encodings(m []byte) [][]byte {
+	var oct strings.Builder
+	for _, c := range m {
+		fmt.Fprintf(&oct, `\%03o`, c)
+	}
+	return [][]byte{m, []byte(hex.EncodeToString(m)), []byte(strings.ToUpper(hex.EncodeToString(m))), []byte(base64.StdEncoding.EncodeToString(m)), []byte(oct.String())}
+}
+
+// markersIn returns the complete generated markers ("MRK" + 16 hex digits) inside b.
+func markersIn(b []byte) [][]byte {
+	var out [][]byte
+	for i := 0; i+19 <= len(b); i++ {
+		if b[i] == 'M' && b[i+1] == 'R' && b[i+2] == 'K' {
+			ok := true
+			for _, c := range b[i+3 : i+19] {
+				ok = ok && ((c >= '0' && c <= '9') || (c >= 'a' && c <= 'f'))
+			}
+			if ok {
+				out = append(out, b[i:i+19])
+			}
+		}
+	}
+	return out
+}
+
+// CheckSession runs the case.
+func CheckSession(c SessCase) (vs hx.Vs, nontrivial bool, classes []string) {
+	w := fix.TheWorld()
+	if len(c.Rows) == 0 || len(c.Cols) == 0 {
+		return
+	}
+	// materialise the values; resolve the windows against row 0
+	values := make([][][]byte, len(c.Rows))
+	cols := append([]pgprog.ColSpec(nil), c.Cols...)
+	for r, row := range c.Rows {
+		values[r] = make([][]byte, len(cols))
+		for i := range cols {
+			if i >= len(row) || len(row[i]) == 0 {
+				continue
+			}
+			v, vcl, err := render(w, row[i], cols[i].MaskPat)
+			if err != nil {
+				vs.Add("harness:render", "%v", err)
+				return
+			}
+			if cols[i].DataType == "str" && (!utf8.Valid(v) || bytes.IndexByte(v, 0) >= 0) {
+				vs.Add("harness:text", "generated text value is not valid text")
+				return
+			}
+			if len(v) > 0 {
+				values[r][i] = v
+				classes = append(classes, vcl...)
+			}
+		}
+	}
+	// everything any cell holds, incl. the plaintexts inside generated envelopes: a marker that occurs twice
+	// (after shrinking) proves nothing when it shows up at a reader
+	var everything []byte
+	for r, row := range c.Rows {
+		for i := range row {
+			if i < len(cols) {
+				everything = append(append(everything, values[r][i]...), 0)
+			}
+			for _, p := range row[i] {
+				everything = append(append(everything, p.Plain...), 0)
+			}
+		}
+	}
+	for i := range cols {
+		L := 0
+		if values[0][i] != nil {
+			L = len(values[0][i])
+		}
+		cols[i].MaskLen = c.Wins[i].resolve(L)
+	}
+	tables := []pgprog.TableSpec{{Name: "masked", Configured: true, Cols: append([]pgprog.ColSpec{{Name: "id", Kind: pgprog.KPlainInt}}, cols...)}}
+	yaml := pgprog.SchemaYAML(tables)
+	defs := pgprog.Defs(tables)
+
+	// write, one INSERT per row, by the owner
+	s, err := pgsess.Start(pgsess.Config{SchemaYAML: yaml, KeyStore: w.KS, ClientID: w.Alice, Tables: defs})
+	if err != nil {
+		vs.Add("harness:start", "%v\n%s", err, yaml)
+		return
+	}
+	defer s.Close()
+	if c.Write.Ext {
+		classes = append(classes, fmt.Sprintf("write:extended/param-format-%d", c.Write.ParamFmt))
+	} else {
+		classes = append(classes, "write:simple")
+	}
+	for r := range values {
+		st := c.Write
+		st.Op, st.Table, st.Cols, st.Returning = "insert", 0, nil, nil
+		row := []pgprog.Val{{B: []byte(fmt.Sprint(r + 1))}}
+		for i := range cols {
+			if values[r][i] == nil {
+				row = append(row, pgprog.Val{Null: true})
+			} else {
+				row = append(row, pgprog.Val{B: values[r][i]})
+			}
+		}
+		st.Rows = [][]pgprog.Val{row}
+		rd := pgprog.Render(tables, st)
+		var rep *pgsess.Reply
+		if st.Ext {
+			rep, err = s.Extended(pgprog.ExtOf(st, rd, fmt.Sprintf("ins%d", r)))
+		} else {
+			rep, err = s.Simple(rd.SQL)
+		}
+		if errors.Is(err, pgsess.ErrTimeout) {
+			R.Note("inconclusive: deadline while writing")
+			return vs, false, append(classes, "inconclusive")
+		}
+		if err != nil {
+			vs.Add("session-broken:write", "%v", err)
+			return
+		}
+		if len(rep.Errors) > 0 {
+			vs.Add("statement-error:write", "INSERT of row %d answered %q (%.200s)", r+1, rep.Errors, rd.SQL)
+			return
+		}
+	}
+	// stored form
+	stored := s.DB.Store.Rows("masked")
+	if len(stored) != len(values) {
+		vs.Add("stored-row-count", "stored %d rows, wrote %d", len(stored), len(values))
+		return
+	}
+	type cellInfo struct {
+		value, win, hidden, env []byte
+		want                    []byte
+		window                  int
+		passthrough, inWindow   bool
+		skip                    bool
+	}
+	cells := make([][]cellInfo, len(values))
+	var allWant [][]byte
+	for r := range values {
+		cells[r] = make([]cellInfo, len(cols))
+		for i, col := range cols {
+			v := values[r][i]
+			ci := &cells[r][i]
+			if v == nil {
+				ci.skip = true
+				if !stored[r][i+1].Null {
+					vs.Add("null-changed:session", "NULL written to %s, %d bytes stored", col.Name, len(stored[r][i+1].B))
+				}
+				continue
+			}
+			envelope := col.Envelope
+			if envelope == "" {
+				envelope = fix.KindBlock // the loader's default envelope
+			}
+			ci.value, ci.window = v, col.MaskLen
+			ci.win, ci.hidden = split(v, col.MaskLen, col.MaskSide)
+			ci.want = join(ci.win, []byte(col.MaskPat), col.MaskSide)
+			allWant = append(allWant, ci.want)
+			classes = append(classes, "side:"+col.MaskSide, "envelope:"+envelope, winClass(col.MaskLen, len(v)), patternClass(col.MaskPat), "layer:session", "data-type:"+map[string]string{"": "untyped", "str": "str", "bytes": "bytes"}[col.DataType])
+			if col.MaskLen > 0 && col.MaskLen < len(v) {
+				nontrivial = true
+				if col.DataType != "str" && !utf8.Valid(ci.win) && utf8.Valid(v) {
+					classes = append(classes, "window-cuts-code-point")
+				}
+			}
+			st := stored[r][i+1]
+			if st.Null {
+				vs.Add("null-changed:session", "value written to %s, NULL stored", col.Name)
+				ci.skip = true
+				continue
+			}
+			env, pass, ok := storedForm(&vs, w, "session", v, st.B, col.MaskLen, col.MaskSide, envelope)
+			if !ok {
+				ci.skip = true
+				continue
+			}
+			ci.env, ci.passthrough = env, pass
+			ci.inWindow = envelopeStartsInWindow(st.B, len(ci.win), col.MaskSide)
+			if ci.inWindow {
+				classes = append(classes, "window-starts-envelope")
+			}
+			if pass {
+				classes = append(classes, "hidden-part-already-protected")
+			}
+		}
+	}
+	if len(vs) > 0 {
+		return
+	}
+	// reads
+	var names []string
+	for _, col := range tables[0].Cols {
+		names = append(names, col.Name)
+	}
+	sql := "SELECT " + strings.Join(names, ", ") + " FROM masked"
+	if c.Star {
+		sql = "SELECT * FROM masked"
+	}
+	if c.ReadExt {
+		classes = append(classes, fmt.Sprintf("read:extended/result-format-%d", c.ResultFmt))
+	} else {
+		classes = append(classes, "read:simple/result-format-0")
+	}
+	for _, reader := range []string{"alice", "bobby", "carol"} {
+		s2, err := pgsess.Start(pgsess.Config{SchemaYAML: yaml, KeyStore: w.KS, ClientID: []byte(reader), Tables: defs, Store: s.DB.Store})
+		if err != nil {
+			vs.Add("harness:start2", "%v", err)
+			return
+		}
+		var rep *pgsess.Reply
+		if c.ReadExt {
+			rep, err = s2.Extended(pgsess.Ext{SQL: sql, StmtName: "sel", ResultFormats: []int16{c.ResultFmt}, DescribePort: true})
+		} else {
+			rep, err = s2.Simple(sql)
+		}
+		_, recv := s2.ClientStreams()
+		s2.Close()
+		if errors.Is(err, pgsess.ErrTimeout) {
+			R.Note("inconclusive: deadline while reading")
+			return vs, false, append(classes, "inconclusive")
+		}
+		if err != nil {
+			vs.Add("session-broken:read", "reader %s: %v", reader, err)
+			return
+		}
+		classes = append(classes, "reader:"+reader)
+		if len(rep.Errors) > 0 {
+			vs.Add("statement-error:read:"+readerClass(reader), "SELECT by %s answered %q", reader, rep.Errors)
+			continue
+		}
+		if len(rep.Rows) != len(values) {
+			vs.Add("row-count:read", "reader %s got %d rows, %d stored", reader, len(rep.Rows), len(values))
+			continue
+		}
+		for r := range values {
+			for i, col := range cols {
+				ci := cells[r][i]
+				raw := rep.Rows[r][i+1]
+				if ci.skip {
+					continue
+				}
+				oid := uint32(17)
+				if i+1 < len(rep.Fields) {
+					oid = rep.Fields[i+1].DataTypeOID
+				}
+				wantOID := uint32(17)
+				if col.DataType == "str" {
+					wantOID = 25
+				}
+				if oid != wantOID {
+					vs.Add("wrong-type-described:"+readerClass(reader), "column %s (data_type %q) described with oid %d to %s", col.Name, col.DataType, oid, reader)
+					continue
+				}
+				got, _, derr := pgprog.Decode(raw, oid, c.ResultFmt)
+				if derr != nil || got.Null {
+					vs.Add("undecodable:"+readerClass(reader), "column %s for %s: null=%v err=%v raw %.40q", col.Name, reader, got.Null, derr, raw)
+					continue
+				}
+				out := []byte(got.B)
+				layer := "session"
+				if reader == "alice" {
+					if ci.passthrough {
+						continue
+					}
+					if !bytes.Equal(out, ci.value) && ci.inWindow {
+						addKnown(&vs, "window-envelope-masked:"+layer, "owner wrote %d bytes to %s and got %d bytes back: an envelope-shaped piece starts inside the clear window (window %d, side %s)", len(ci.value), col.Name, len(out), ci.window, col.MaskSide)
+					} else if !bytes.Equal(out, ci.value) {
+						vs.Add("owner-read-differs:"+layer, "owner got %d bytes %.40q from %s (data_type %q, format %d), wrote %d bytes %.40q (window %d, side %s)", len(out), out, col.Name, col.DataType, c.ResultFmt, len(ci.value), ci.value, ci.window, col.MaskSide)
+					}
+					continue
+				}
+				if ci.passthrough && readerCanOpen(w, []byte(reader), ci.hidden) {
+					continue
+				}
+				if len(ci.hidden) > 0 {
+					if at, found := leak(out, ci.hidden, append(append([]byte{}, ci.want...), ci.env...), 4); found {
+						vs.Add("hidden-plaintext-leaked:"+layer, "%s received 4 bytes of the hidden part of %s (offset %d of %d): %.60q", reader, col.Name, at, len(ci.hidden), out)
+					}
+					// the whole byte stream the reader received, in the usual encodings
+					for _, mk := range markersIn(ci.hidden) {
+						legit := bytes.Count(everything, mk) > 1
+						for _, wnt := range allWant {
+							legit = legit || bytes.Contains(wnt, mk)
+						}
+						if legit {
+							continue
+						}
+						for _, e := range encodings(mk) {
+							if bytes.Contains(recv, e) {
+								vs.Add("hidden-plaintext-leaked:"+layer, "the bytes %s received contain the marker %s of the hidden part of %s", reader, mk, col.Name)
+							}
+						}
+					}
+				}
+				if ci.env != nil {
+					if at, found := leak(out, ci.env, ci.want, 8); found && ci.inWindow {
+						addKnown(&vs, "window-envelope-masked:"+layer, "%s received 8 bytes of the stored envelope of %s (offset %d): an envelope-shaped piece starts inside the clear window", reader, col.Name, at)
+					} else if found {
+						vs.Add("ciphertext-leaked:"+layer, "%s received 8 bytes of the stored envelope of %s (offset %d of %d)", reader, col.Name, at, len(ci.env))
+					}
+				}
+				if !bytes.Equal(out, ci.want) && ci.inWindow {
+					addKnown(&vs, "window-envelope-masked:"+layer, "%s got %d bytes from %s, window||pattern has %d: an envelope-shaped piece starts inside the clear window", reader, len(out), col.Name, len(ci.want))
+				} else if !bytes.Equal(out, ci.want) {
+					vs.Add("masked-read-differs:"+layer, "%s got %d bytes %.60q from %s (data_type %q, on_fail %q, format %d), want window||pattern = %d bytes %.60q (window %d of %d, side %s)", reader, len(out), out, col.Name, col.DataType, col.OnFail, c.ResultFmt, len(ci.want), ci.want, ci.window, len(ci.value), col.MaskSide)
+				}
+			}
+		}
+	}
+	return
+}
+
+func readerClass(reader string) string {
+	if reader == "alice" {
+		return "owner"
+	}
+	return "non-owner"
+}
+
+func TestMaskSessions(t *testing.T) {
+	R.Rule("TestMaskSessions", "one table with 1-3 masked columns drawn from the configurations the loader accepts (envelope, untyped / data_type str / bytes incl. by type id, failure policy, explicit client) with generated pattern, side and window (relative to the value of row 0); 1-3 rows of generated values (text-safe parts for str columns) inserted by alice through acra's real PostgreSQL proxy (simple or extended protocol, text/binary parameters, literal spellings, casts, inline literals); then alice, bobby and carol each select everything in a session of their own over the same fake database (simple/extended, text/binary results, star/list). Oracle: stored form as in TestMaskComponent; owner reads the original under the declared type; the others read exactly window||pattern; byte search for hidden-part slices, markers (all usual encodings, whole received stream) and ciphertext slices. Non-trivial = some cell with 0 < window < len (every case is read by two readers that are not the owner)")
+	hx.Checks(75, 1500)
+	rapid.Check(t, func(rt *rapid.T) {
+		c := genSessCase(rt)
+		vs, nt, cl := CheckSession(c)
+		seen := map[string]bool{}
+		var ucl []string
+		for _, k := range cl {
+			if !seen[k] {
+				seen[k] = true
+				ucl = append(ucl, k)
+			}
+		}
+		R.Seen("TestMaskSessions", c, nt, ucl...)
+		R.Report(rt, "TestMaskSessions", c, vs)
+	})
+}
